@@ -123,9 +123,12 @@ impl Runtime {
 
     pub fn push(&self, task: &Arc<Task>) {
         debug!("scheduler::push  task={:?}", task);
-        self.cache
-            .upsert(task)
-            .unwrap_or_else(|err| panic!("fail to upsert task({}): {}", task.id, err));
+        if let Err(err) = self.cache.upsert(task) {
+            // the process has ended and its records are gone: a late task of it is dropped,
+            // a panic here would take the scheduler loop (and every other process) down
+            error!("fail to upsert task({}): {}", task.id, err);
+            return;
+        }
         self.scher.push(task);
     }
 
